@@ -77,13 +77,48 @@ func c11Gen(r *rand.Rand, tier string) []Case {
 		}
 		out = append(out, c)
 	}
+	// message level: liquidate (mid-period, repeatedly), partial and full redeems to self / another vesting
+	// account / a fresh address, on the real app
+	nm := 60
+	if tier == "thorough" {
+		nm = 1500
+	}
+	for i := 0; i < nm; i++ {
+		out = append(out, vmGenC11(r, 5))
+	}
 	return out
 }
 
 func c11Exec(c Case) (outs []string, fails []Failure, tags []string) {
+	env := &vmEnv{}
 	for i, line := range c {
 		f := strings.Fields(line)
 		out := "bad-op"
+		if strings.HasPrefix(f[0], "m") {
+			func() {
+				defer func() {
+					if r := recover(); r != nil {
+						out = "panic:" + strings.ReplaceAll(fmt.Sprint(r), " ", "_")
+					}
+				}()
+				o, ok := vmExec(env, c, i, func(sig, what string) {
+					fails = append(fails, Failure{Signature: sig, What: what, Case: c[:i+1]})
+				}, func(t string) {
+					tags = append(tags, t)
+					if t == "mliq-ok" || t == "mredeem-ok" {
+						tags = append(tags, "sub-ok")
+					}
+				})
+				if ok {
+					out = o
+					if f[0] == "mcreate" {
+						out = "skip"
+					}
+				}
+			}()
+			outs = append(outs, out)
+			continue
+		}
 		func() {
 			defer func() {
 				if r := recover(); r != nil {
